@@ -182,7 +182,7 @@ func rewriteFile(name string, code []byte, rep *rewriteReport) ([]byte, bool, er
 		case *ast.SendStmt:
 			rep.Unsupported = append(rep.Unsupported, fmt.Sprintf("%s:%d: channel send is not modelled", name, fset.Position(x.Pos()).Line))
 		case *ast.SelectorExpr:
-			if id, ok := x.X.(*ast.Ident); ok && id.Name == "runtime" && id.Obj == nil {
+			if id, ok := x.X.(*ast.Ident); ok && id.Name == "runtime" && id.Obj == nil && x.Sel.Name != "Gosched" {
 				rep.Unsupported = append(rep.Unsupported, fmt.Sprintf("%s: runtime.%s is not modelled", name, x.Sel.Name))
 			}
 		}
@@ -234,6 +234,31 @@ func rewriteFile(name string, code []byte, rep *rewriteReport) ([]byte, bool, er
 	}
 	if !changed {
 		return nil, false, nil
+	}
+	// an import whose only uses were rewritten away (runtime.Gosched) must go
+	if rname, im := importName(f, "runtime"); im != nil {
+		used := false
+		ast.Inspect(f, func(n ast.Node) bool {
+			if se, ok := n.(*ast.SelectorExpr); ok {
+				if id, ok := se.X.(*ast.Ident); ok && id.Name == rname && id.Obj == nil {
+					used = true
+				}
+			}
+			return true
+		})
+		if !used {
+			for _, d := range f.Decls {
+				if gd, ok := d.(*ast.GenDecl); ok && gd.Tok == token.IMPORT {
+					var keep []ast.Spec
+					for _, sp := range gd.Specs {
+						if sp != ast.Spec(im) {
+							keep = append(keep, sp)
+						}
+					}
+					gd.Specs = keep
+				}
+			}
+		}
 	}
 	if needRT {
 		addImport(f, "rt", shimBase+"rt")
@@ -363,6 +388,12 @@ func rewriteNode(body *ast.BlockStmt, shared map[*ast.Object]bool, rep *rewriteR
 			x.X = expr(x.X)
 			return x
 		case *ast.CallExpr:
+			if se, ok := x.Fun.(*ast.SelectorExpr); ok {
+				if id, ok := se.X.(*ast.Ident); ok && id.Name == "runtime" && id.Obj == nil && se.Sel.Name == "Gosched" && len(x.Args) == 0 {
+					count++
+					return rtCall("Gosched")
+				}
+			}
 			x.Fun = expr(x.Fun)
 			exprs(x.Args)
 			return x
